@@ -105,7 +105,7 @@ func tcpScenario(npk int, reqs []string) func(x *vrt.Exec) {
 
 // wsScenario: the same race on a ws-rtsp session; every websocket message must be exactly one
 // response or one interleaved frame.
-func wsScenario(npk int, reqs []string) func(x *vrt.Exec) {
+func wsScenario(npk int, reqs []string, tracks string) func(x *vrt.Exec) {
 	return func(x *vrt.Exec) {
 		vrt.Quiet(true)
 		media.VerifReset()
@@ -116,7 +116,8 @@ func wsScenario(npk int, reqs []string) func(x *vrt.Exec) {
 		vrt.WhenIdle()
 		u := "rtsp://h/live/cam"
 		var codes []int
-		for _, st := range [][3]string{{"DESCRIBE", u, ""}, {"SETUP", u + "/streamid=0", "RTP/AVP/TCP;unicast;interleaved=0-1"}, {"SETUP", u + "/streamid=1", "RTP/AVP/TCP;unicast;interleaved=2-3"}, {"PLAY", u, ""}} {
+		steps := handshake(u, tracks)
+		for _, st := range steps {
 			h := map[string]string{}
 			if st[2] != "" {
 				h["Transport"] = st[2]
@@ -126,7 +127,7 @@ func wsScenario(npk int, reqs []string) func(x *vrt.Exec) {
 				codes = append(codes, r.Status)
 			}
 		}
-		if fmt.Sprint(codes) != "[200 200 200 200]" {
+		if fmt.Sprint(codes) != allOK(len(steps)) {
 			x.Failf("ws handshake-failed", "answers %v", codes)
 			return
 		}
@@ -138,9 +139,11 @@ func wsScenario(npk int, reqs []string) func(x *vrt.Exec) {
 			}
 			pk = append(pk, hx.Pkt(ch, 96, true, uint16(i), uint32(3000*i), rtppack.H264Single(hx.NAL(2, 1, 30+i, byte(i)))))
 		}
+		all := pk
+		pk = subscribed(pk, tracks) // what the client must receive: packets of the tracks it set up
 		vrt.Quiet(false)
 		vrt.GoNamed("publisher", func() {
-			for _, p := range pk {
+			for _, p := range all {
 				s.WriteRtpPacket(p)
 			}
 		})
@@ -179,7 +182,7 @@ func wsScenario(npk int, reqs []string) func(x *vrt.Exec) {
 }
 
 // wspScenario: WSP control channel (wrapped RTSP requests) vs. data channel (media).
-func wspScenario(npk int, reqs []string) func(x *vrt.Exec) {
+func wspScenario(npk int, reqs []string, tracks string) func(x *vrt.Exec) {
 	return func(x *vrt.Exec) {
 		vrt.Quiet(true)
 		media.VerifReset()
@@ -198,7 +201,8 @@ func wspScenario(npk int, reqs []string) func(x *vrt.Exec) {
 		}
 		u := "rtsp://h/live/cam"
 		var codes []int
-		for _, st := range [][3]string{{"DESCRIBE", u, ""}, {"SETUP", u + "/streamid=0", "RTP/AVP/TCP;unicast;interleaved=0-1"}, {"SETUP", u + "/streamid=1", "RTP/AVP/TCP;unicast;interleaved=2-3"}, {"PLAY", u, ""}} {
+		steps := handshake(u, tracks)
+		for _, st := range steps {
 			h := map[string]string{}
 			if st[2] != "" {
 				h["Transport"] = st[2]
@@ -207,17 +211,23 @@ func wspScenario(npk int, reqs []string) func(x *vrt.Exec) {
 				codes = append(codes, r.Status)
 			}
 		}
-		if fmt.Sprint(codes) != "[200 200 200 200]" {
+		if fmt.Sprint(codes) != allOK(len(steps)) {
 			x.Failf("wsp handshake-failed", "answers %v torn %v", codes, c.Torn)
 			return
 		}
 		var pk []*rtp.Packet
 		for i := 0; i < npk; i++ {
-			pk = append(pk, hx.Pkt(rtp.ChannelVideo, 96, true, uint16(i), uint32(3000*i), rtppack.H264Single(hx.NAL(2, 1, 30+i, byte(i)))))
+			ch := byte(rtp.ChannelVideo)
+			if tracks != "both" && i%2 == 1 {
+				ch = rtp.ChannelAudio
+			}
+			pk = append(pk, hx.Pkt(ch, 96, true, uint16(i), uint32(3000*i), rtppack.H264Single(hx.NAL(2, 1, 30+i, byte(i)))))
 		}
+		all := pk
+		pk = subscribed(pk, tracks)
 		vrt.Quiet(false)
 		vrt.GoNamed("publisher", func() {
-			for _, p := range pk {
+			for _, p := range all {
 				s.WriteRtpPacket(p)
 			}
 		})
@@ -261,6 +271,36 @@ func wspScenario(npk int, reqs []string) func(x *vrt.Exec) {
 	}
 }
 
+// handshake lists the requests that bring a session to playing with the given tracks set up.
+func handshake(u, tracks string) [][3]string {
+	st := [][3]string{{"DESCRIBE", u, ""}}
+	if tracks != "audio-only" {
+		st = append(st, [3]string{"SETUP", u + "/streamid=0", "RTP/AVP/TCP;unicast;interleaved=0-1"})
+	}
+	if tracks != "video-only" {
+		st = append(st, [3]string{"SETUP", u + "/streamid=1", "RTP/AVP/TCP;unicast;interleaved=2-3"})
+	}
+	return append(st, [3]string{"PLAY", u, ""})
+}
+
+func allOK(n int) string {
+	c := make([]int, n)
+	for i := range c {
+		c[i] = 200
+	}
+	return fmt.Sprint(c)
+}
+
+func subscribed(pk []*rtp.Packet, tracks string) []*rtp.Packet {
+	var out []*rtp.Packet
+	for _, p := range pk {
+		if (p.Channel == rtp.ChannelVideo && tracks != "audio-only") || (p.Channel == rtp.ChannelAudio && tracks != "video-only") {
+			out = append(out, p)
+		}
+	}
+	return out
+}
+
 func trunc(b []byte, n int) []byte {
 	if len(b) > n {
 		return b[:n]
@@ -278,8 +318,11 @@ func scenarios(thorough bool) []runner.Scenario {
 		{Name: "tcp-2pkts-OPTIONS", Body: tcpScenario(2, []string{"OPTIONS"}), P: p, E: e, Shards: sh, Setup: limitOn},
 		{Name: "tcp-3pkts-OPTIONS-PLAY", Body: tcpScenario(3, []string{"OPTIONS", "PLAY"}), P: p, E: e, Shards: sh, Setup: limitOn},
 		{Name: "tcp-2pkts-GET_PARAMETER-OPTIONS", Body: tcpScenario(2, []string{"GET_PARAMETER", "OPTIONS"}), P: p, E: e, Shards: sh, Setup: limitOn},
-		{Name: "ws-rtsp-2pkts-OPTIONS-PLAY", Body: wsScenario(2, []string{"OPTIONS", "PLAY"}), P: p, Shards: sh},
-		{Name: "wsp-2pkts-OPTIONS-PLAY", Body: wspScenario(2, []string{"OPTIONS", "PLAY"}), P: p, Shards: sh},
+		{Name: "ws-rtsp-2pkts-OPTIONS-PLAY", Body: wsScenario(2, []string{"OPTIONS", "PLAY"}, "both"), P: p, Shards: sh},
+		{Name: "wsp-2pkts-OPTIONS-PLAY", Body: wspScenario(2, []string{"OPTIONS", "PLAY"}, "both"), P: p, Shards: sh},
+		// a player that set up one track only: packets of the other track must produce no message at all
+		{Name: "ws-rtsp-audio-only-3pkts-OPTIONS", Body: wsScenario(3, []string{"OPTIONS"}, "audio-only"), P: p, Shards: sh},
+		{Name: "wsp-video-only-3pkts-OPTIONS", Body: wspScenario(3, []string{"OPTIONS"}, "video-only"), P: p, Shards: sh},
 	}
 }
 
